@@ -24,7 +24,7 @@ typedef struct HttpClient_s { int _mutex; iora_transport *_transport; HttpConfig
 bool G_idem;
 
 /* ghosts written by one attempt (exec_model.h) */
-#define EXEC_ATTEMPT_GHOSTS G_presend_entered, G_acquired, G_sid, G_send_calls, G_recv_calls, G_drop_calls, G_dropped, G_send_ok, G_async_ok, G_rrc_called, G_rrc, G_fr_force_evict, G_fr_mode, G_peer_closed_body, G_reuse_cfg
+#define EXEC_ATTEMPT_GHOSTS G_presend_entered, G_presend_framing, G_acquired, G_sid, G_send_calls, G_recv_calls, G_drop_calls, G_dropped, G_send_ok, G_async_ok, G_rrc_called, G_rrc, G_fr_force_evict, G_fr_mode, G_peer_closed_body, G_reuse_cfg
 
 /* stated bound: response cap (max(maxResponseBytes, maxPayloadSize)) <= 2^60, so `size + 8192` cannot wrap (std::string::max_size is below that anyway) */
 #define EXEC_CAP_MAX ((size_t)1 << 60)
